@@ -30,7 +30,9 @@ func init() {
 	core.RegisterMeta("C30", core.Meta{
 		Rule: "22 kinds (18 handshake message types, CertificateRequest/CertificateVerify in both the TLS 1.2 and the older format, sessionState, sessionStateTLS13); values from the seeded in-package generator: " +
 			"minimal, all-optional-parts, each optional part alone, each absent, each vector at the exact maximum its container allows, boundary-biased lengths (min, min+1, 255, 256, 257, max) and typical random values; " +
-			"non-trivial = a value whose encoding was produced, decoded and compared (distinct by hash of kind + encoding); every strict prefix (<= 2 KiB) or a sample of prefixes is then offered to unmarshal",
+			"non-trivial = a value whose encoding was produced, decoded and compared (distinct by hash of kind + encoding); every strict prefix (<= 2 KiB) or a sample of prefixes is then offered to unmarshal; " +
+			"lifetime legs with the same round-trip oracle: batches of 2..8 values marshalled first (returned slices kept, not copied, hashed) and decoded afterwards, the same value marshalled twice, " +
+			"and 6 goroutines doing marshal / Gosched / unmarshal / compare concurrently",
 		MinNontrivial:         3000,
 		MinNontrivialThorough: 150000,
 		Assumptions: []string{
@@ -75,6 +77,9 @@ func runC30(c *core.Ctx) {
 			c30Value(c, kind, r, mode, 0, fmt.Sprintf("%s/random/%d/%d", kind, c.Shard, i))
 		}
 	}
+	// encodings must stay valid while the caller holds them (c30_batch.go)
+	c30Batches(c)
+	c30Concurrent(c)
 }
 
 func modeName(mode, arg int) string {
